@@ -31,6 +31,65 @@ pub fn locate_fault(w2: &W2Prog, r: &RunResult) -> Option<SinkFault> {
     Some(SinkFault { j, acked, errno: fail.errno })
 }
 
+// Where and in which call context a failure is expected.
+pub struct FailDesc {
+    pub node: usize,
+    pub func: Option<String>,
+    pub chain: Vec<(usize, String)>,
+    pub chain_in_slot: Vec<bool>,
+    pub in_interp: bool,
+    pub via_return: bool,
+    pub stdout_before: u64,
+}
+
+impl FailDesc {
+    pub fn from_print(ev: &crate::w2::PrintEvent) -> FailDesc {
+        FailDesc {
+            node: ev.node,
+            func: ev.func.clone(),
+            chain: ev.chain.clone(),
+            chain_in_slot: ev.chain_in_slot.clone(),
+            in_interp: ev.in_interp,
+            via_return: ev.via_return,
+            stdout_before: ev.end - ev.text.len() as u64,
+        }
+    }
+    pub fn from_call(ev: &crate::w2::CallEvent) -> FailDesc {
+        FailDesc {
+            node: ev.node,
+            func: ev.func.clone(),
+            chain: ev.chain.clone(),
+            chain_in_slot: ev.chain_in_slot.clone(),
+            in_interp: ev.in_interp,
+            via_return: ev.via_return,
+            stdout_before: ev.off,
+        }
+    }
+}
+
+// Storage corruption of the first byte of a call's name token: the call fails
+// with an undefined name the first time it is evaluated.  Returns None when the
+// offset is not a call token, Some(None) when the call is never evaluated.
+pub fn locate_name_fault(w2: &W2Prog, off: u64) -> Option<Option<FailDesc>> {
+    // `mk()()`: outer and inner call share the first token; the inner callee is looked up
+    let node = w2.tok_off.iter().rposition(|o| *o == Some(off))?;
+    if let Some(ev) = w2.events.iter().find(|e| e.node == node) {
+        return Some(Some(FailDesc::from_print(ev)));
+    }
+    if let Some(ev) = w2.calls.iter().find(|e| e.node == node) {
+        return Some(Some(FailDesc::from_call(ev)));
+    }
+    Some(None)
+}
+
+pub fn name_flip_item(rng: &mut Rng, w2: &W2Prog) -> Option<Item> {
+    let cands: Vec<u64> = w2.tok_off.iter().filter_map(|o| *o).collect();
+    if cands.is_empty() {
+        return None;
+    }
+    Some(Item::Flip { off: cands[rng.usize_below(cands.len())], bytes: b"q".to_vec() })
+}
+
 pub fn depth_bucket(d: usize) -> &'static str {
     match d {
         0 => "0",
@@ -113,7 +172,18 @@ impl Property for C17 {
         if rng.chance(7, 10) {
             let p = crate::w2::pick(rng, &crate::w2::GenOpts::default());
             let reference = ctx.reference(worker, &p.program);
-            let plan = gen_sink_plan(rng, &reference);
+            let mut plan = gen_sink_plan(rng, &reference);
+            if rng.chance(1, 4) {
+                // storage corruption of a call's name instead of a sink fault
+                let w2p = crate::w2::build(&p.aux);
+                if let Some(it) = name_flip_item(rng, &w2p) {
+                    plan = Plan::new();
+                    plan.items.push(it);
+                    if rng.chance(1, 3) {
+                        plan.items.push(Item::RChunk { seed: rng.next_u64() >> 1, max: 1 + rng.below(16) });
+                    }
+                }
+            }
             let world = if rng.chance(1, 4) { World::random(rng, &["rand", "spelling", "file_name", "cwd_name", "rel"]) } else { World::reference() };
             Case { label: p.label, program: p.program, aux: p.aux, world, plan }
         } else {
@@ -155,7 +225,7 @@ impl Property for C17 {
 // Compare stderr with the model.  With `k1` the known slot-relative deviation
 // is tolerated: one extra leading location segment per enclosing slot, and
 // unchecked positions for calls written inside a slot.
-fn check_diag(w2: &W2Prog, ev: &crate::w2::PrintEvent, r: &RunResult, k1: bool, sig_extra: &mut String) -> Vec<String> {
+pub fn check_diag(w2: &W2Prog, ev: &FailDesc, r: &RunResult, k1: bool, sig_extra: &mut String) -> Vec<String> {
     let mut bad = vec![];
     let slot_containers: Vec<Option<String>> = if k1 {
         ev.chain
@@ -319,49 +389,82 @@ fn check_w2(ctx: &Ctx, worker: usize, case: &Case) -> Outcome {
     out.fired = oracle::fired_kinds(&case.plan, &r);
     let clause = "a failure inside print is one located diagnostic with the active call chain, after the output so far, exit 103";
 
-    let sf = match locate_fault(&w2, &r) {
-        None => {
-            // nothing failed: success clause
-            out.nontrivial = !out.fired.is_empty();
-            out.cells.push("w2:no-fault".into());
-            if r.stdout != w2.stdout || !r.stderr.is_empty() || r.status != Status::Exit(0) {
-                out.violation = Some(v(
-                    "a successful script writes its output, nothing to stderr, and exits 0",
-                    "w2-success-transcript",
-                    format!("fault-free/invisible-event run deviates from the model; plan=[{}]", case.plan.encode_items()),
-                    format!("exit:0 stdout={:?} stderr=\"\"", oracle::show(&w2.stdout)),
-                    &r,
-                ));
+    let flip = case.plan.items.iter().find_map(|i| if let Item::Flip { off, .. } = i { Some(*off) } else { None });
+    let (fd, partial_ok, what): (FailDesc, bool, String) = if let Some(off) = flip {
+        match locate_name_fault(&w2, off) {
+            None => {
+                out.skipped = Some("flip-not-on-a-call-token".into());
+                return out;
             }
-            return out;
+            Some(None) => {
+                // the corrupted call is never evaluated: the script must still succeed
+                out.nontrivial = true;
+                out.cells.push("w2:name-flip-dead-code".into());
+                if r.stdout != w2.stdout || !r.stderr.is_empty() || r.status != Status::Exit(0) {
+                    out.violation = Some(v(
+                        "a successful script writes its output, nothing to stderr, and exits 0",
+                        "w2-success-transcript",
+                        format!("corrupted name in code that is never evaluated changed the run; plan=[{}]", case.plan.encode_items()),
+                        format!("exit:0 stdout={:?} stderr=\"\"", oracle::show(&w2.stdout)),
+                        &r,
+                    ));
+                }
+                return out;
+            }
+            Some(Some(fd)) => {
+                out.probes.push("name-flip".into());
+                (fd, false, format!("undefined-name at node {}", off))
+            }
         }
-        Some(s) => s,
+    } else {
+        match locate_fault(&w2, &r) {
+            None => {
+                // nothing failed: success clause
+                out.nontrivial = !out.fired.is_empty();
+                out.cells.push("w2:no-fault".into());
+                if r.stdout != w2.stdout || !r.stderr.is_empty() || r.status != Status::Exit(0) {
+                    out.violation = Some(v(
+                        "a successful script writes its output, nothing to stderr, and exits 0",
+                        "w2-success-transcript",
+                        format!("fault-free/invisible-event run deviates from the model; plan=[{}]", case.plan.encode_items()),
+                        format!("exit:0 stdout={:?} stderr=\"\"", oracle::show(&w2.stdout)),
+                        &r,
+                    ));
+                }
+                return out;
+            }
+            Some(sf) => {
+                let ev = &w2.events[sf.j];
+                if sf.acked > ev.end - ev.text.len() as u64 {
+                    out.probes.push("fault-mid-print".into());
+                }
+                if (r.stdout.len() as u64) > sf.acked {
+                    out.probes.push("exit-flush-retry".into());
+                }
+                out.cells.push(format!("errno={}", sf.errno));
+                (FailDesc::from_print(ev), true, format!("print #{} acked={}", sf.j, sf.acked))
+            }
+        }
     };
     out.nontrivial = true;
-    let ev = &w2.events[sf.j];
-    let prev_end = if sf.j == 0 { 0 } else { w2.events[sf.j - 1].end };
+    let ev = &fd;
+    let prev_end = fd.stdout_before;
+    let this_end = if partial_ok { w2.events.iter().find(|e| e.node == fd.node && e.end > prev_end).map(|e| e.end).unwrap_or(prev_end) } else { prev_end };
     let depth = ev.chain.len();
-    out.cells.push(format!("site={}:depth={}", w2.site[ev.node], depth_bucket(depth)));
-    out.cells.push(format!("errno={}", sf.errno));
+    let kind = if partial_ok { "sink" } else { "name" };
+    out.cells.push(format!("{kind}:site={}:depth={}", w2.site[ev.node], depth_bucket(depth)));
     for (cn, _) in &ev.chain {
-        out.cells.push(format!("chain-site={}", w2.site[*cn]));
-    }
-    if sf.acked > prev_end {
-        out.probes.push("fault-mid-print".into());
+        out.cells.push(format!("{kind}:chain-site={}", w2.site[*cn]));
     }
     if depth >= 3 {
         out.probes.push("fault-depth-3+".into());
     }
-    if ev.loop_iter {
+    if w2.events.iter().any(|e| e.node == fd.node && e.loop_iter) {
         out.probes.push("fault-in-loop".into());
     }
     if ev.via_return {
         out.probes.push("fault-in-return-expr".into());
         out.cells.push("via-return-expr".into());
-    }
-    let total_accepted = r.stdout.len() as u64;
-    if total_accepted > sf.acked {
-        out.probes.push("exit-flush-retry".into());
     }
 
     let mut bad: Vec<String> = vec![];
@@ -373,8 +476,8 @@ fn check_w2(ctx: &Ctx, worker: usize, case: &Case) -> Outcome {
         bad.push("stdout is not a prefix of the fault-free output".into());
     } else if (r.stdout.len() as u64) < prev_end {
         bad.push(format!("output of a completed print was lost ({} bytes < {})", r.stdout.len(), prev_end));
-    } else if (r.stdout.len() as u64) > ev.end {
-        bad.push("stdout continues past the failed print".into());
+    } else if (r.stdout.len() as u64) > this_end {
+        bad.push("stdout continues past the point of failure".into());
     }
 
     // Known finding K1: a call written inside an interpolation slot is reported
@@ -384,6 +487,7 @@ fn check_w2(ctx: &Ctx, worker: usize, case: &Case) -> Outcome {
     // behaviour is accepted too, and everything else is still asserted.
     let mut sig_extra = String::new();
     let strict = check_diag(&w2, ev, &r, false, &mut sig_extra);
+    let sf_j = what.clone();
     if ev.in_interp && !strict.is_empty() {
         let mut sx = String::new();
         let k1 = check_diag(&w2, ev, &r, true, &mut sx);
@@ -399,14 +503,14 @@ fn check_w2(ctx: &Ctx, worker: usize, case: &Case) -> Outcome {
     if !bad.is_empty() {
         let site = &w2.site[ev.node];
         let via_return = ev.via_return;
-        let sig = if sig_extra.is_empty() { format!("sink-fault-diagnostic:{}", if via_return { "via-return-expr" } else { site }) } else { format!("sink-fault-diagnostic{sig_extra}") };
+        let sig = if sig_extra.is_empty() { format!("{kind}-fault-diagnostic:{}", if via_return { "via-return-expr" } else { site }) } else { format!("{kind}-fault-diagnostic{sig_extra}") };
         out.violation = Some(v(
             clause,
             &sig,
-            format!("{}; print #{} (site {}, depth {}) acked={} plan=[{}]", bad.join("; "), sf.j, site, depth, sf.acked, case.plan.encode_items()),
+            format!("{}; {} (site {}, depth {}) plan=[{}]", bad.join("; "), sf_j, site, depth, case.plan.encode_items()),
             format!(
-                "exit:103; stdout prefix of model up to print #{}; stderr: '{}:{}:{}:{} <msg>' + {} trace lines {:?}",
-                sf.j,
+                "exit:103; stdout prefix of model ({} bytes); stderr: '{}:{}:{}:{} <msg>' + {} trace lines {:?}",
+                prev_end,
                 String::from_utf8_lossy(&r.argv1),
                 w2.pos[ev.node].map(|p| p.0).unwrap_or(0),
                 w2.pos[ev.node].map(|p| p.1).unwrap_or(0),
